@@ -3,7 +3,7 @@
 # usage: tools/run_repo_suite.sh [repo_dir]   -> prints missing stable-pass tests; exit 0 iff none missing
 REPO=${1:-/repo}
 OUT=$(mktemp -d /tmp/suite.XXXXXX)
-cd "$REPO" && /venv/bin/python -m pytest -q -p no:cacheprovider --timeout=900 --continue-on-collection-errors -n 14 --junitxml=$OUT/junit.xml > $OUT/log 2>&1
+cd "$REPO" && SPSDK_CACHE_FOLDER=$OUT/cache /venv/bin/python -m pytest -q -p no:cacheprovider --timeout=900 --continue-on-collection-errors -n 14 --junitxml=$OUT/junit.xml > $OUT/log 2>&1
 tail -1 $OUT/log
 /venv/bin/python - "$OUT/junit.xml" <<'PY'
 import json, sys, xml.etree.ElementTree as ET
